@@ -2,7 +2,9 @@
 package c01
 
 import (
+	"bytes"
 	"context"
+	"encoding/json"
 	"fmt"
 	"log/slog"
 	"math/big"
@@ -561,3 +563,60 @@ func FuzzJSONLine(f *testing.F) {
 }
 
 var _ = strings.Repeat
+
+// TestSameAttrUsedAgain: an attribute value that the program builds once (a package-level slog.Group(...)) and hands
+// to the logger again and again. A deferred value inside it is resolved for every record anew: the n-th use shows the
+// n-th resolution, through whichever entry point the attribute comes in, With included.
+func TestSameAttrUsedAgain(t *testing.T) {
+	rt.Check(t, 400, 60000, func(t *rapid.T) {
+		ra := lm.GenReusedAttr().Draw(t, "attr")
+		sink := &lm.Sink{}
+		h := logger.NewJsonHandler(sink, logger.NewOptions(logger.LevelDebug, false, rapid.Bool().Draw(t, "addSource")))
+		l := logger.New(h)
+		uses := rapid.IntRange(2, 5).Draw(t, "uses")
+		var hows []int
+		for i := 1; i <= uses; i++ {
+			how := rapid.IntRange(0, 3).Draw(t, "how")
+			hows = append(hows, how)
+			sink.Reset()
+			switch how {
+			case 0:
+				l.Log(context.Background(), logger.LevelInfo, "m", ra.Attr)
+			case 1:
+				pc, _, _ := lm.CallerPC()
+				r := slog.NewRecord(time.Now(), logger.LevelWarn, "m", pc)
+				r.AddAttrs(ra.Attr)
+				if err := h.Handle(context.Background(), r); err != nil {
+					t.Fatalf("Handle returned %v", err)
+				}
+			case 2:
+				l.With(ra.Attr).Info("m")
+			case 3:
+				l.Error("m", ra.Attr)
+			}
+			if len(sink.Writes) != 1 {
+				t.Fatalf("use #%d: %d Write calls for one record", i, len(sink.Writes))
+			}
+			var obj any
+			dec := json.NewDecoder(bytes.NewReader(sink.Writes[0]))
+			dec.UseNumber()
+			if err := dec.Decode(&obj); err != nil {
+				t.Fatalf("use #%d: line does not parse: %v: %s", i, err, sink.Writes[0])
+			}
+			for _, k := range ra.Path {
+				m, ok := obj.(map[string]any)
+				if !ok {
+					t.Fatalf("use #%d (entry point %d) of the same attribute (%s): no object on the way to %v in %s", i, how, ra.Desc, ra.Path, sink.Writes[0])
+				}
+				obj = m[k]
+			}
+			if got := fmt.Sprint(obj); got != fmt.Sprint(i) {
+				t.Fatalf("use #%d of the same attribute (%s; entry points so far %v): the deferred value inside shows %s, want %d - the value of the resolution made for this record\n  line: %s", i, ra.Desc, hows, got, i, sink.Writes[0])
+			}
+		}
+		ev.Label("same_attribute_value_logged_again")
+		ev.Case(true, ev.Hash("reuse", ra.Desc, fmt.Sprint(hows)), func() string {
+			return fmt.Sprintf("one attribute value (%s) used %d times through entry points %v", ra.Desc, uses, hows)
+		})
+	})
+}
